@@ -14,6 +14,7 @@ import LfsModel.DownloadAlt
 import LfsModel.DownloadConc
 import LfsModel.TQTrace
 import LfsModel.TQConcat
+import LfsModel.TQAbort
 import LfsModel.Backoff
 import LfsModel.Expiry
 import LfsModel.FilterProcess
@@ -791,6 +792,14 @@ def answer (line : String) : String :=
   | "C19" :: rest => c19 rest
   | "C03" :: rest => c03 rest
   | "C15" :: rest => c15 rest
+  | ["C06", "awg", script] =>
+    -- a = Add(1), A = Add(3), d = Done, x = Abort; answer: does Wait() return afterwards?
+    let ops := script.toList.filterMap fun ch =>
+      if ch == 'a' then some (TQAbort.Op.add 1) else if ch == 'A' then some (.add 3)
+      else if ch == 'd' then some .done else if ch == 'x' then some .abort else none
+    -- a WaitGroup that goes negative panics
+    let states := ops.foldl (fun (acc : TQAbort.G × Bool) o => let g := TQAbort.step acc.1 o; (g, acc.2 || decide (g.wq < 0))) ({}, false)
+    if states.2 then "panic" else if TQAbort.waitReturns states.1 then "returns" else "blocks"
   | ["C06", "concat", now, size, b, other] =>
     -- items `id:readyAtMs` separated by commas (`-` = none); answer `left|right` as id lists
     let items (t : String) : Option (List TQConcat.Item) :=
